@@ -343,7 +343,7 @@ def run(ctx):
     work = []
     for tr in HARNESSES:
         p = dict(transport=tr, seed=ctx.seed)
-        d = depth + ((1 if quick else 5) if tr == "coap" else ((1 if quick else 3) if tr == "ble" else (0 if quick else 1)))
+        d = depth + ((1 if quick else 3) if tr == "coap" else ((1 if quick else 3) if tr == "ble" else (0 if quick else 1)))
         rs = explore.roots(lambda: make(p), 2)
         work += [(p, r, d) for r in rs]
     # the same IP space against an accessory that re-uses its ephemeral key in every session (and so replays its side of pair-verify): the
@@ -352,7 +352,7 @@ def run(ctx):
     work += [(p, r, depth + (0 if quick else 1)) for r in explore.roots(lambda: make(p), 2)]
     # ... and against a peer that has stopped reading (a closed connection reports its loss late): requests made in between
     p2 = dict(transport="ip", seed=ctx.seed, slow_close=True)
-    work += [(p2, r, depth + (0 if quick else 1)) for r in explore.roots(lambda: make(p2), 2)]
+    work += [(p2, r, depth) for r in explore.roots(lambda: make(p2), 2)]
     ctx.bounds.update(depth=depth, transports=list(HARNESSES))
     ctx.pmap(_work, work)
     import itertools
